@@ -24,11 +24,13 @@ PUBLIC_TYPES = ("modular::monty_form::MontyParams", "modular::boxed_monty_form::
                 "modular::const_monty_form::inv::ConstMontyFormInverter",
                 "core::fmt::Formatter", "der::", "rlp::", "serdect::")
 PUBLIC_FIELDS = {"params", "modulus_params", "inverter", "adjuster"}
-DECLASS_SEGS = {"is_true_vartime", "to_bool_vartime", "into_option", "to_u8_vartime"}
+# Declassification = a conversion that itself branches on the secret inside code we do not analyse
+# (CtOption -> Option builds the discriminant with an `if` inside `subtle`). Choice -> bool conversions
+# (`bool::from`, `.into()`, `is_true_vartime`, `to_bool_vartime`, `to_u8_vartime`) compute `x != 0` without a
+# branch: they are not events themselves — the bool keeps its labels and the branch that consumes it is.
+DECLASS_SEGS = {"into_option"}
 DECLASS_PATHS = {
-    "subtle::<impl core::convert::From<subtle::Choice> for bool>::from",
     "subtle::<impl core::convert::From<subtle::CtOption<T>> for core::option::Option<T>>::from",
-    "const_choice::<impl core::convert::From<const_choice::ConstChoice> for bool>::from",
 }
 # external functions whose running time / memory access depends on the listed argument positions
 VARTIME_EXTERNALS = {
